@@ -60,6 +60,24 @@ def rule_read_set(ctx, rid="R10.1"):
             allowed_all |= have
         read_sets[d] = sorted(set(dr.table) | allowed_all | {spec.ID_KEY[d], "$ref"})
     ctx.extra["schema_key_read_sets"] = read_sets
+    # the only schema object a keyword may consult is the one it was called with: `validator.schema` is the *root* document,
+    # which coincides with it only at depth 0
+    seen = set()
+    for f in sorted(t.keyword_funcs(), key=lambda x: x.qual):
+        todo = [f]
+        while todo:
+            g = todo.pop()
+            if g in seen:
+                continue
+            seen.add(g)
+            for n in walk_body(g):
+                if isinstance(n, ast.Attribute) and n.attr == "schema" and isinstance(n.ctx, ast.Load) and calls.type_of(g, n.value) == "Validator":
+                    r.fail("%s|root-schema-read" % g.qual, site(g, n),
+                           "%s consults `%s`, the root schema of the validator, not the schema object whose keyword is being applied: "
+                           "inside a subschema its siblings are read from the wrong object" % (g.qual, norm(n)))
+            for h in calls.successors(g):
+                if h.cls is None and h.mod.name in ("_utils", "_validators", "_legacy_validators"):
+                    todo.append(h)
     return r
 
 
@@ -198,3 +216,7 @@ def run(ctx):
     rule_resolver_id_of(ctx)
     c02.rule_short_circuit(ctx, "R10.5a")
     c02.rule_ref_opaque(ctx, "R10.5b")
+    # R10.6: a draft's vocabulary is its class's own table: create() copies the mapping it is given, so a keyword registered on a
+    # derived class (const on a re-typed Draft 4) cannot appear in the stock class's table
+    from .c16 import rule_create_copies
+    rule_create_copies(ctx, "R10.6")
